@@ -508,25 +508,70 @@ theorem specials_table (p : Option Nat) (n : Option Int) (a b : FV) :
       | fin y =>
         by_cases hx : x.c = 0 <;> by_cases hy : y.c = 0 <;> simp [meets, remS, XV.of, mpfrOp, mpfrExactFV, hx, hy]
 
-/-! ## 6. Where the faithful model (and the code) departs from the Spec: concrete witnesses -/
+/-! ## 6. Signs of zero results where the code was repaired (formerly counterexamples) -/
 
-/-- **Candidate defect (sign of zero, exact engine).**  IEEE: `(−0) × (1/3) = −0` (`mulS`: the sign of a product
-is the XOR of the signs).  `RealEngine.mul` multiplies a `Float` and a non-dyadic `Fraction` as `Fraction`s, which
-cannot carry `−0`: `ops.mul(-0.0, Fraction(1, 3), ctx=MPFloatContext(3, RNE))` returns `+0`. -/
-theorem mul_zero_fraction_sign_counterexample :
-    (opEval (.mp 3 .rne (some 0) {}) .mul [.fv (.fin ⟨true, 0, 0⟩), .q 1 3]).toOption = some (.fv (.fin ⟨false, 0, 0⟩)) ∧
-    mulS (.zero true) (.fin false) = some (.zero true) := by
-  constructor
-  · decide
-  · rfl
+/-- **Exact engine, zero product.**  IEEE: the sign of a product is the XOR of the signs, also when it is zero
+(`mulS`).  `RealEngine.mul` now answers a zero product of finite operands itself (as `div` always did) instead of
+multiplying as `Fraction`s, which cannot carry `−0`: for a `Float` zero and any finite `Float` or non-dyadic
+`Fraction`, the result is the zero with the XOR sign.  (Repaired defect C02-F2.) -/
+theorem real_mul_zero_sign (x y : NV) (hx : nvIsNar x = false) (hy : nvIsNar y = false)
+    (hz : nvIsZero x = true ∨ nvIsZero y = true) :
+    realMul x y = .fv (.fin ⟨nvSign x != nvSign y, 0, 0⟩) := by
+  have nan_inf : ∀ v : NV, nvIsNar v = false → nvIsNan v = false ∧ nvIsInf v = false := by
+    intro v hv
+    cases v with
+    | q n d => exact ⟨rfl, rfl⟩
+    | fv u => cases u <;> simp [nvIsNar, nvIsNan, nvIsInf, FV.isNar, FV.isNan, FV.isInf] at hv ⊢
+  obtain ⟨h1, h2⟩ := nan_inf x hx
+  obtain ⟨h3, h4⟩ := nan_inf y hy
+  unfold realMul
+  have hz' : (nvIsZero x || nvIsZero y) = true := by
+    rcases hz with h | h <;> simp [h]
+  simp only [h1, h2, h3, h4, hz', Bool.or_self, Bool.false_eq_true, if_false, if_true]
 
-/-- **Candidate defect (sign of zero, `mod`).**  `ops.mod` documents Python's `%`, for which `4 % -2 = -0.0` (a zero
-remainder takes the sign of the divisor, as the zero-operand arms of `_mod` themselves do); the finite arm computes
-`x − q·y` with exact `Float` arithmetic, whose cancellation is `+0`. -/
-theorem mod_zero_sign_counterexample :
-    (opEval (.mp 3 .rne (some 0) {}) .mod [.fv (.fin ⟨false, 0, 4⟩), .fv (.fin ⟨true, 0, 2⟩)]).toOption = some (.fv (.fin ⟨false, 0, 0⟩)) ∧
-    (opEval (.mp 3 .rne (some 0) {}) .mod [.fv (.fin ⟨false, 0, 0⟩), .fv (.fin ⟨true, 0, 2⟩)]).toOption = some (.fv (.fin ⟨true, 0, 0⟩)) := by
-  constructor <;> decide
+/-- … the instance that used to fail: `ops.mul(-0.0, Fraction(1, 3), ctx=MPFloatContext(3, RNE))` is `−0`, what
+`mulS` prescribes; likewise inside `fma` -/
+theorem mul_zero_fraction_sign :
+    (opEval (.mp 3 .rne (some 0) {}) .mul [.fv (.fin ⟨true, 0, 0⟩), .q 1 3]).toOption = some (.fv (.fin ⟨true, 0, 0⟩)) ∧
+    mulS (.zero true) (.fin false) = some (.zero true) ∧
+    (opEval (.mp 3 .rne (some 0) {}) .fma [.fv (.fin ⟨true, 0, 0⟩), .q 1 3, .fv (.fin ⟨true, 0, 0⟩)]).toOption
+      = some (.fv (.fin ⟨true, 0, 0⟩)) := by
+  refine ⟨by decide, rfl, by decide⟩
+
+/-- **`mod`, zero remainder.**  `ops.mod` documents Python's `%`, where a zero remainder takes the sign of the
+divisor (`4 % -2 = -0.0`), as the zero-dividend arms of `_mod` always did; the finite arm now does the same: whenever
+`MPFREngine._mod` on finite non-zero operands returns a zero, its sign is the sign of `y`.  (Repaired defect C02-F1.) -/
+theorem mod_zero_sign (x y : RF) (v : FV) (h : modFin x y = .ok v) (hz : v.isZero = true) : v.sign = y.s := by
+  unfold modFin at h
+  split at h
+  · exact absurd h (by simp)
+  · split at h
+    · exact absurd h (by simp)
+    · split at h
+      · exact absurd h (by simp)
+      · simp only [Except.ok.injEq] at h
+        split at h
+        · rename_i hr
+          subst h
+          revert hr
+          generalize FV.add (.fin x) (FV.neg (FV.mul (.fin y) (.fin (RF.ofInt _)))) = r
+          intro hr
+          cases r with
+          | fin w => rfl
+          | inf t => simp [FV.isZero] at hr
+          | nan t => simp [FV.isZero] at hr
+        · rename_i hr
+          subst h
+          exact absurd hz hr
+  · exact absurd h (by simp)
+
+/-- … the instances that used to fail, and the arms that were always right -/
+theorem mod_zero_sign_examples :
+    (opEval (.mp 3 .rne (some 0) {}) .mod [.fv (.fin ⟨false, 0, 4⟩), .fv (.fin ⟨true, 0, 2⟩)]).toOption = some (.fv (.fin ⟨true, 0, 0⟩)) ∧
+    (opEval (.mp 3 .rne (some 0) {}) .mod [.fv (.fin ⟨true, 0, 4⟩), .fv (.fin ⟨false, 0, 2⟩)]).toOption = some (.fv (.fin ⟨false, 0, 0⟩)) ∧
+    (opEval (.mp 3 .rne (some 0) {}) .mod [.fv (.fin ⟨false, 0, 0⟩), .fv (.fin ⟨true, 0, 2⟩)]).toOption = some (.fv (.fin ⟨true, 0, 0⟩)) ∧
+    (opEval (.mp 3 .rne (some 0) {}) .mod [.fv (.fin ⟨false, 0, 5⟩), .fv (.fin ⟨true, 0, 2⟩)]).toOption = some (.fv (.fin ⟨true, 0, 1⟩)) := by
+  refine ⟨by decide, by decide, by decide, by decide⟩
 
 /-! ## 7. Non-vacuity: the hypotheses are satisfiable and the statements bite -/
 
